@@ -132,7 +132,19 @@ type Shared = Arc<Mutex<Ctl>>;
 
 /// the queue handle as the handler gets it: from `DataStream::new` or from `ohkami_lib::stream::queue`
 enum Handle { Sse(ohkami::sse::handle::Stream<String>), Raw(ohkami_lib::stream::impls::Queue<String>) }
-struct Producer { ctl: Shared, handle: Handle, script: Vec<u8>, ip: usize, msgs: Vec<String>, next_msg: usize }
+/// `decoy`: None = no filter behind the stream.  Some(pattern): the stream goes through `StreamExt::filter`, and the producer also pushes items the
+/// predicate rejects (DECOY..) -- where the forced schedule says `PDecoy`, or by pattern (0: before each message, 1: after each message,
+/// 2: before the first message and at the very end)
+struct Producer { ctl: Shared, handle: Handle, script: Vec<u8>, ip: usize, msgs: Vec<String>, next_msg: usize, decoy: Option<u8>, last_decoy: bool }
+const DECOY: char = '\u{1}';
+impl Producer {
+    fn push_decoy(&mut self, c: &mut Ctl) {
+        let m = format!("{DECOY}rejected-{}", self.next_msg);
+        match &mut self.handle { Handle::Sse(h) => h.send(m), Handle::Raw(q) => q.push(m) }
+        self.last_decoy = true;
+        c.code("PDecoy");
+    }
+}
 impl Future for Producer {
     type Output = ();
     fn poll(mut self: Pin<&mut Self>, cx: &mut Context<'_>) -> Poll<()> {
@@ -149,11 +161,19 @@ impl Future for Producer {
         c.code("PCont");
         loop {
             c.env();
+            if let Some(pat) = this.decoy {
+                let op = this.script.get(this.ip).copied();
+                let now = if c.steering() { c.hist.get(c.cur).map(|a| a == "PDecoy").unwrap_or(false) }
+                          else { !this.last_decoy && match (pat, op) { (0, Some(b'P')) => true, (2, Some(b'P')) => this.next_msg == 0, (2, None) => true, _ => false } };
+                if now { this.push_decoy(&mut c); continue }
+            }
             match this.script.get(this.ip).copied() {
                 Some(b'P') => {
                     let m = this.msgs[this.next_msg].clone(); this.next_msg += 1; this.ip += 1;
                     match &mut this.handle { Handle::Sse(h) => h.send(m), Handle::Raw(q) => q.push(m) }   // the real queue handle
+                    this.last_decoy = false;
                     c.code("PPush");
+                    if this.decoy == Some(1) && !c.steering() { this.push_decoy(&mut c) }
                 }
                 Some(_) => {
                     this.ip += 1;
@@ -197,12 +217,19 @@ impl tokio::io::AsyncWrite for Conn {
 
 // ------------------------------------------------------------------ run
 
-fn make_stream(ctl: Shared, script: Vec<u8>, msgs: Vec<String>, from_queue: bool) -> DataStream {
+fn make_stream(ctl: Shared, script: Vec<u8>, msgs: Vec<String>, from_queue: bool, decoy: Option<u8>) -> DataStream {
+    use ohkami::util::StreamExt;
+    if let Some(d) = decoy {
+        // the handler's stream behind the adapter `StreamExt::filter`: the predicate rejects the decoys (and tells the log)
+        let c2 = ctl.clone();
+        return DataStream::from(ohkami_lib::stream::queue(move |q| Producer { ctl, handle: Handle::Raw(q), script, ip: 0, msgs, next_msg: 0, decoy: Some(d), last_decoy: false })
+            .filter(move |m: &String| if m.starts_with(DECOY) { let mut c = c2.lock().unwrap(); c.env(); c.code("CDiscard"); false } else { true }))
+    }
     if from_queue {
         // `DataStream::from(stream)` over `ohkami_lib::stream::queue`: the same QueueStream behind the `map(Data::encode)` adapter
-        DataStream::from(ohkami_lib::stream::queue(move |q| Producer { ctl, handle: Handle::Raw(q), script, ip: 0, msgs, next_msg: 0 }))
+        DataStream::from(ohkami_lib::stream::queue(move |q| Producer { ctl, handle: Handle::Raw(q), script, ip: 0, msgs, next_msg: 0, decoy: None, last_decoy: false }))
     } else {
-        DataStream::new(move |h| Producer { ctl, handle: Handle::Sse(h), script, ip: 0, msgs, next_msg: 0 })
+        DataStream::new(move |h| Producer { ctl, handle: Handle::Sse(h), script, ip: 0, msgs, next_msg: 0, decoy: None, last_decoy: false })
     }
 }
 
@@ -247,8 +274,9 @@ pub fn run(scn: &Value) -> Value {
     let delays: Vec<i64> = arr(&scn["pol"]["delay"]).iter().map(util::i).collect();
     let spurs: Vec<i64> = arr(&scn["pol"]["spur"]).iter().map(util::i).collect();
     let wmode = util::i(&scn["wmode"]);
-    let via = match s(&scn["via"]) { "router" => "router", "from" => "from", "router-from" => "router-from", _ => "direct" };
+    let via = match s(&scn["via"]) { "router" => "router", "from" => "from", "router-from" => "router-from", "filter" => "filter", "router-filter" => "router-filter", _ => "direct" };
     let from_queue = via.ends_with("from");
+    let decoy: Option<u8> = if via.ends_with("filter") { Some((seed % 3) as u8) } else { None };
     if s(&scn["via"]) == "session" { return run_session(&msgs, &table, scn["gap_ms"].as_u64().unwrap_or(50)) }
 
     let flag = Arc::new(Flag(AtomicBool::new(false)));
@@ -261,7 +289,7 @@ pub fn run(scn: &Value) -> Value {
     // the response, through the public API
     let res: Response = if via.starts_with("router") {
         let (c2, sc2, m2) = (ctl.clone(), script.clone(), msgs.clone());
-        let o = Ohkami::new(("/sse".GET(move || { let (c, sc, m) = (c2.clone(), sc2.clone(), m2.clone()); async move { make_stream(c, sc, m, from_queue) } }),));
+        let o = Ohkami::new(("/sse".GET(move || { let (c, sc, m) = (c2.clone(), sc2.clone(), m2.clone()); async move { make_stream(c, sc, m, from_queue, decoy) } }),));
         let router = v::finalize(o);
         util::block_on(async {
             let mut req = v::VRequest::new();
@@ -269,7 +297,7 @@ pub fn run(scn: &Value) -> Value {
             match req.read(&mut rd).await { Ok(Some(())) => req.handle(&router).await, Ok(None) => Response::new(Status::Gone), Err(e) => e }
         })
     } else {
-        let mut r = make_stream(ctl.clone(), script.clone(), msgs.clone(), from_queue).into_response();
+        let mut r = make_stream(ctl.clone(), script.clone(), msgs.clone(), from_queue, decoy).into_response();
         v::complete(&mut r);
         r
     };
@@ -419,5 +447,5 @@ pub fn gen(rng: &mut Rng, i: usize) -> Value {
     let delay: Vec<i64> = (0..ny).map(|_| *rng.pick(&[-1i64, -1, 0, 0, 1, 2, 3, 5])).collect();
     let spur: Vec<i64> = (0..ny).map(|_| *rng.pick(&[0i64, 0, 0, 1, 2])).collect();
     json!({"id": i, "script": script, "msgs": msgs, "hist": [], "seed": rng.below(1 << 30) as i64,
-           "pol": {"delay": delay, "spur": spur}, "wmode": *rng.pick(&[0i64, 0, 1, 2]), "via": *rng.pick(&["direct", "direct", "router", "from", "router-from"])})
+           "pol": {"delay": delay, "spur": spur}, "wmode": *rng.pick(&[0i64, 0, 1, 2]), "via": *rng.pick(&["direct", "direct", "router", "from", "router-from", "filter", "router-filter"])})
 }
